@@ -272,6 +272,11 @@ int main(int argc, char *argv[])
 
         int i = 0;
         while (i < num_acf_msgs) {
+            // Send the packet early if one more ACF message might not fit
+            // into the buffer anymore
+            if (pdu_length + AVTP_CAN_HEADER_LEN + CAN_PAYLOAD_MAX_SIZE > MAX_PDU_SIZE)
+                break;
+
             // Get payload -- will 'spin' here until we get the requested number
             //                of CAN frames.
             if(can_variant == AVTP_CAN_FD){
@@ -279,7 +284,8 @@ int main(int argc, char *argv[])
             } else {
                 res = read(can_socket, &can_frame.cc, sizeof(struct can_frame));
             }
-            if (!res) continue;
+            // Nothing was read (or the read failed): there is no frame to forward
+            if (res <= 0) continue;
 
             uint8_t* acf_pdu = pdu + pdu_length;
             res = prepare_acf_packet(acf_pdu, can_frame);
